@@ -775,6 +775,31 @@ func TestC06(t *testing.T) {
 	c.sqlDictInputs(p, pick(2, 3), judge)
 	p = c.rec.NewPart("source_dictionary_near_miss", fmt.Sprintf("the source-dictionary words with exactly one byte replaced by its neighbour under the case bit (b^0x20, e.g. '_' -> 0x7f, single-letter case flips) or the high bit (b^0x80), behind the same %d lead constructs x blank? x W x blank? x every tail of 0..1 symbols", len(sqlDictLeads)), false, true, "")
 	c.sqlNearMissInputs(p, judge)
+	var nmKeys []string
+	for k, v := range kwTab() {
+		if v != 'F' && len(k) >= 2 && gen.IsLetter(k[0]) {
+			nmKeys = append(nmKeys, k)
+		}
+	}
+	sort.Strings(nmKeys)
+	p = c.rec.NewPart("table_keys_near_miss", fmt.Sprintf("%d word keys of the keyword table (upper and lower case) with exactly one byte replaced by its neighbour under the high bit (b^0x80, every position) or, for a non-letter ('_', ' ', '.', digits), under the case bit (b^0x20), in 5 templates", len(nmKeys)), false, true, "")
+	c.ParRange(p, int64(len(nmKeys)), func(w *Worker, i int64) {
+		for _, k := range []string{nmKeys[i], gen.LowerASCII(nmKeys[i])} {
+			for j := 0; j < len(k); j++ {
+				flips := []byte{0x80}
+				if !gen.IsLetter(k[j]) {
+					flips = []byte{0x80, 0x20}
+				}
+				for _, x := range flips {
+					b := []byte(k)
+					b[j] ^= x
+					for _, t := range []string{"1 K 1", "1 and K('a')=1", "x' K --", "1 union K select 1", "1; K t values(1)"} {
+						judge(w, strings.ReplaceAll(t, "K", string(b)))
+					}
+				}
+			}
+		}
+	})
 	p = c.rec.NewPart("rapid_fragments", "pgregory.net/rapid over the SQL fragment grammar (fragments + arbitrary bytes, drawn separators, tail-repeat)", true, false, "")
 	g := gen.SQLInput()
 	c.Rapid(p, 8, pick(25000, 600000), func(rt *rapid.T, sh int) ev.Case {
